@@ -188,3 +188,296 @@ theorem v11_unusable_cex :
   ⟨{ sid := 4, version := .v11, serverCaps := [.base10, .base11] }, by decide, rfl, by decide⟩
 
 end Xml
+
+/-! ## Exactness of capability recognition (`impl FromStr for Capability`, capabilities.rs:123-183)
+
+For **every** decomposition `u : UriParts` the oracle (iri-string) may report for a capability text:
+a capability of the table is recognised **iff** the five components are exactly those of the table
+(`UriParts.Is`: scheme, authority, path as given, **no** query, **no** fragment). So no URI with a
+query or a fragment — not even an empty one (`some ""`: `…base:1.0#`, `…base:1.0?`) —, another
+scheme spelling or a longer/shorter path is ever taken for it. -/
+namespace Xml
+
+theorem classify_base10_iff (s : String) (u : UriParts) :
+    classifyCapability s u = .base10 ↔ u.Is "urn" none "ietf:params:netconf:base:1.0" := by xml_exact
+
+theorem classify_base11_iff (s : String) (u : UriParts) :
+    classifyCapability s u = .base11 ↔ u.Is "urn" none "ietf:params:netconf:base:1.1" := by xml_exact
+
+theorem classify_writableRunning_iff (s : String) (u : UriParts) :
+    classifyCapability s u = .writableRunning ↔ u.Is "urn" none "ietf:params:netconf:capability:writable-running:1.0" := by
+  xml_exact
+
+theorem classify_candidate_iff (s : String) (u : UriParts) :
+    classifyCapability s u = .candidate ↔ u.Is "urn" none "ietf:params:netconf:capability:candidate:1.0" := by
+  xml_exact
+
+theorem classify_confirmedCommit10_iff (s : String) (u : UriParts) :
+    classifyCapability s u = .confirmedCommit10 ↔ u.Is "urn" none "ietf:params:netconf:capability:confirmed-commit:1.0" := by
+  xml_exact
+
+theorem classify_confirmedCommit11_iff (s : String) (u : UriParts) :
+    classifyCapability s u = .confirmedCommit11 ↔ u.Is "urn" none "ietf:params:netconf:capability:confirmed-commit:1.1" := by
+  xml_exact
+
+theorem classify_rollbackOnError_iff (s : String) (u : UriParts) :
+    classifyCapability s u = .rollbackOnError ↔ u.Is "urn" none "ietf:params:netconf:capability:rollback-on-error:1.0" := by
+  xml_exact
+
+theorem classify_validate10_iff (s : String) (u : UriParts) :
+    classifyCapability s u = .validate10 ↔ u.Is "urn" none "ietf:params:netconf:capability:validate:1.0" := by
+  xml_exact
+
+theorem classify_validate11_iff (s : String) (u : UriParts) :
+    classifyCapability s u = .validate11 ↔ u.Is "urn" none "ietf:params:netconf:capability:validate:1.1" := by
+  xml_exact
+
+theorem classify_startup_iff (s : String) (u : UriParts) :
+    classifyCapability s u = .startup ↔ u.Is "urn" none "ietf:params:netconf:capability:startup:1.0" := by
+  xml_exact
+
+theorem classify_xpath_iff (s : String) (u : UriParts) :
+    classifyCapability s u = .xpath ↔ u.Is "urn" none "ietf:params:netconf:capability:xpath:1.0" := by xml_exact
+
+theorem classify_junos_iff (s : String) (u : UriParts) :
+    classifyCapability s u = .junos ↔ u.Is "http" (some "xml.juniper.net") "/netconf/junos/1.0" := by xml_exact
+
+/-- the `:url:1.0` capability: exact scheme, no authority, exact path, no fragment, **some** query;
+its scheme list is `urlSchemes` of the unescaped query -/
+theorem classify_url_iff (s : String) (u : UriParts) (l : List String) :
+    classifyCapability s u = .url l ↔
+      u.scheme = "urn" ∧ u.authority = none ∧ u.path = "ietf:params:netconf:capability:url:1.0" ∧
+        u.fragment = none ∧ u.query.isSome = true ∧ l = urlSchemes (u.queryUnesc.getD "") := by
+  constructor
+  · intro h
+    unfold classifyCapability at h
+    dsimp only at h
+    repeat' (replace h := Caps.ite_cases h; rcases h with ⟨hc, h⟩ | ⟨_, h⟩)
+    all_goals first | (cases h; done) | skip
+    simp only [Bool.and_eq_true, beq_iff_eq, Option.isNone_iff_eq_none] at hc
+    cases h
+    exact ⟨hc.1.1.1.1, hc.1.1.1.2, hc.1.2, hc.1.1.2, hc.2, rfl⟩
+  · rintro ⟨h1, h2, h3, h4, h5, rfl⟩
+    obtain ⟨sc, au, pa, qu, fr, qe⟩ := u
+    simp only at h1 h2 h3 h4 h5
+    subst h1 h2 h3 h4
+    cases qu with
+    | none => cases h5
+    | some q =>
+      unfold classifyCapability
+      dsimp only
+      iterate 10 rw [if_neg (by simp)]
+      rw [if_pos (by simp)]
+
+/-- anything else is `Unknown` and keeps the capability text as it stands -/
+theorem classify_unknown (s t : String) (u : UriParts) (h : classifyCapability s u = .unknown t) : t = s := by
+  unfold classifyCapability at h
+  dsimp only at h
+  repeat' (replace h := Caps.ite_cases h; rcases h with ⟨hc, h⟩ | ⟨_, h⟩)
+  all_goals first | (cases h; done) | skip
+  cases h; rfl
+
+/-- `Capability::from_str` recognises a non-`:url` capability exactly when the oracle decomposes the
+text and `classifyCapability` recognises the parts -/
+theorem parseCapability_eq_iff (o : UriOracle) (s : String) (k : Capability) (hk : ∀ l, k ≠ .url l) :
+    parseCapability o s = .ok k ↔ ∃ u, o s = some u ∧ classifyCapability s u = k := by
+  unfold parseCapability
+  cases ho : o s with
+  | none => simp
+  | some u =>
+    simp only [Option.some.injEq, exists_eq_left']
+    split
+    · next hc =>
+      constructor
+      · intro h; cases h
+      · intro h
+        exfalso
+        simp only [isUrlCap, Bool.and_eq_true, beq_iff_eq, Option.isNone_iff_eq_none] at hc
+        exact hk _ ((classify_url_iff s u _).2 ⟨hc.1.1.1.1.1, hc.1.1.1.1.2, hc.1.1.2, hc.1.1.1.2, hc.1.2, rfl⟩ ▸ h).symm
+    · simp
+
+/-- **C12, exactness at the reader**: a capability text is taken for `:base:1.0` iff it is a URI whose
+components are exactly `urn`, no authority, `ietf:params:netconf:base:1.0`, no query, no fragment. -/
+theorem parseCapability_base10_iff (o : UriOracle) (s : String) :
+    parseCapability o s = .ok .base10 ↔ ∃ u, o s = some u ∧ u.Is "urn" none "ietf:params:netconf:base:1.0" := by
+  rw [parseCapability_eq_iff o s _ (fun _ h => by cases h)]
+  simp only [classify_base10_iff]
+
+theorem parseCapability_base11_iff (o : UriOracle) (s : String) :
+    parseCapability o s = .ok .base11 ↔ ∃ u, o s = some u ∧ u.Is "urn" none "ietf:params:netconf:base:1.1" := by
+  rw [parseCapability_eq_iff o s _ (fun _ h => by cases h)]
+  simp only [classify_base11_iff]
+
+/-! ### the scheme list of `:url:1.0` -/
+
+/-- `str::split(c)` is *the* decomposition of a text into `c`-free pieces separated by `c` -/
+theorem splitOnChar_eq_iff (c : Char) (l : List Char) (ps : List (List Char)) :
+    splitOnChar c l = ps ↔ ps ≠ [] ∧ (∀ p ∈ ps, c ∉ p) ∧ Caps.joinSep c ps = l := by
+  rw [splitOnChar_eq]; exact Caps.splitOn_eq_iff c l ps
+
+/-- **the schemes are exactly the comma-separated values of the parameters named `scheme`**: `x` is
+a scheme of the (unescaped) query iff one of its `&`-separated parameters is `scheme=` followed by a
+value one of whose `,`-separated pieces is `x`. -/
+theorem mem_urlSchemes_iff (q x : String) :
+    x ∈ urlSchemes q ↔
+      ∃ param ∈ splitOnChar '&' q.toList, ∃ value, param = "scheme=".toList ++ value ∧
+        ∃ piece ∈ splitOnChar ',' value, x = String.ofList piece := by
+  rw [urlSchemes_eq, List.mem_map]
+  simp only [splitOnChar_eq]
+  constructor
+  · rintro ⟨y, hy, rfl⟩
+    obtain ⟨param, hp, value, hv, hx⟩ := (Caps.mem_urlSchemes_iff _ _).1 hy
+    exact ⟨param, hp, value, hv, y, hx, rfl⟩
+  · rintro ⟨param, hp, value, hv, piece, hx, rfl⟩
+    exact ⟨piece, (Caps.mem_urlSchemes_iff _ _).2 ⟨param, hp, value, hv, hx⟩, rfl⟩
+
+/-- a parameter whose name is not exactly `scheme` (`fallback-scheme=…`, `xscheme=…`, `Scheme=…`,
+`scheme` without `=`) contributes nothing: if no parameter starts with `scheme=`, there are no schemes -/
+theorem urlSchemes_eq_nil (q : String) (h : ∀ param ∈ splitOnChar '&' q.toList, ¬ "scheme=".toList <+: param) :
+    urlSchemes q = [] := by
+  apply List.eq_nil_iff_forall_not_mem.2
+  intro x hx
+  obtain ⟨param, hp, value, rfl, _⟩ := (mem_urlSchemes_iff q x).1 hx
+  exact h _ hp (List.prefix_append _ _)
+
+/-- … and other parameters never change what the `scheme` parameters contribute: for queries written
+as `&`-free parameters joined by `&` -/
+theorem urlSchemes_append_other (params other : List (List Char)) (hne : params ≠ [])
+    (hfree : ∀ p ∈ params ++ other, '&' ∉ p) (hother : ∀ p ∈ other, ¬ "scheme=".toList <+: p) (x : String) :
+    x ∈ urlSchemes (String.ofList (Caps.joinSep '&' (params ++ other)))
+      ↔ x ∈ urlSchemes (String.ofList (Caps.joinSep '&' params)) := by
+  simp only [urlSchemes_eq, String.toList_ofList, List.mem_map]
+  constructor
+  · rintro ⟨y, hy, rfl⟩; exact ⟨y, (Caps.urlSchemes_append_other params other hne hfree hother y).1 hy, rfl⟩
+  · rintro ⟨y, hy, rfl⟩; exact ⟨y, (Caps.urlSchemes_append_other params other hne hfree hother y).2 hy, rfl⟩
+
+/-! ### the connection with establishment -/
+
+/-- some capability text of the hello is decomposed by the oracle into exactly the `:base:1.0` parts -/
+def HasExactBase10 (c : RCfg) (o : UriOracle) (cs : List HChild) : Prop :=
+  ∃ r ccs span inner u, HChild.caps r ccs ∈ cs ∧ CapLeaf.cap span inner ∈ ccs ∧ o (c.tok span) = some u ∧
+    u.Is "urn" none "ietf:params:netconf:base:1.0"
+
+/-- in an accepted capability list, `:base:1.0` is present iff one of the texts is exactly that URI -/
+theorem base10_mem_capsAbs_iff (c : RCfg) (o : UriOracle) (ccs : List CapLeaf) (caps : List Capability)
+    (h : capsAbs c o [] ccs = .ok caps) :
+    Capability.base10 ∈ caps ↔ ∃ span inner u, CapLeaf.cap span inner ∈ ccs ∧ o (c.tok span) = some u ∧
+      u.Is "urn" none "ietf:params:netconf:base:1.0" := by
+  rw [capsAbs_mem_iff c o [] ccs caps h]
+  simp only [List.not_mem_nil, false_or, parseCapability_base10_iff]
+  constructor
+  · rintro ⟨span, inner, hm, u, hu, hi⟩; exact ⟨span, inner, u, hm, hu, hi⟩
+  · rintro ⟨span, inner, u, hm, hu, hi⟩; exact ⟨span, inner, hm, u, hu, hi⟩
+
+/-- **C12, no session without an exact `:base:1.0`**: for every document of the hello grammar (any
+children in any order, any other capabilities, any oracle): if the session is established, some
+capability text of the hello decomposes to exactly `urn` / no authority /
+`ietf:params:netconf:base:1.0` / no query / no fragment. -/
+theorem established_has_exact_base10 (c : RCfg) (o : UriOracle) (raw : String) (attrs : List AttrItem)
+    (cs : List HChild) (hwf : ∀ x ∈ cs, x.WF) (ctx : Context)
+    (h : establish c false o (helloDoc raw attrs cs) = .ok ctx) : HasExactBase10 c o cs := by
+  rw [establish_refines c false o raw attrs cs hwf] at h
+  unfold establishAbs at h
+  cases hh : helloAbs c o none none cs with
+  | error e => rw [hh] at h; cases h
+  | ok hello =>
+    rw [hh] at h
+    simp only at h
+    cases hv : highestCommon (clientAdvertised false) hello.caps with
+    | none => rw [hv] at h; cases h
+    | some v =>
+      have hb : Capability.base10 ∈ hello.caps := by
+        have := version_is_highest_common _ _ v hv
+        cases v with
+        | v10 => exact (this.2 rfl).2.1
+        | v11 => exact absurd (this.1 rfl).1 (by decide)
+      rcases helloAbs_caps c o none none cs hello hh with h1 | ⟨r, ccs, hm, hc⟩
+      · cases h1
+      · obtain ⟨span, inner, u, hl, hu, hi⟩ := (base10_mem_capsAbs_iff c o ccs _ hc).1 hb
+        exact ⟨r, ccs, span, inner, u, hm, hl, hu, hi⟩
+
+/-- … contrapositive: whatever else the hello contains, without such a text there is no session -/
+theorem not_established_without_exact_base10 (c : RCfg) (o : UriOracle) (raw : String) (attrs : List AttrItem)
+    (cs : List HChild) (hwf : ∀ x ∈ cs, x.WF) (hno : ¬ HasExactBase10 c o cs) (ctx : Context) :
+    establish c false o (helloDoc raw attrs cs) ≠ .ok ctx :=
+  fun h => hno (established_has_exact_base10 c o raw attrs cs hwf ctx h)
+
+/-- **C12, establishment ⇔ validity, with `:base:1.0` spelled out**: `establish_iff` with the
+membership `base10 ∈ caps` replaced by its meaning on the capability texts. -/
+theorem establish_iff_exact (c : RCfg) (o : UriOracle) (raw r : String) (attrs : List AttrItem)
+    (pre mid post : List HChild) (ccs : List CapLeaf) (s : String) (i : List Ev)
+    (hpre : ∀ x ∈ pre, x.isComment = true) (hmid : ∀ x ∈ mid, x.isComment = true)
+    (hpost : ∀ x ∈ post, x.isComment = true)
+    (hc : ∀ x ∈ ccs, x.WF) (hs : Inert "session-id" i) (ctx : Context) :
+    establish c false o (helloDoc raw attrs (pre ++ .caps r ccs :: mid ++ .sid s i :: post)) = .ok ctx
+      ↔ ∃ caps n, capsAbs c o [] ccs = .ok caps ∧ parseSessionId (c.tok s) = some n
+            ∧ (∃ span inner u, CapLeaf.cap span inner ∈ ccs ∧ o (c.tok span) = some u ∧
+                u.Is "urn" none "ietf:params:netconf:base:1.0")
+            ∧ ctx = { sid := n, version := .v10, serverCaps := caps } := by
+  rw [establish_iff c o raw r attrs pre mid post ccs s i hpre hmid hpost hc hs ctx]
+  constructor
+  · rintro ⟨caps, n, h1, h2, h3, h4⟩
+    exact ⟨caps, n, h1, h2, (base10_mem_capsAbs_iff c o ccs caps h1).1 h3, h4⟩
+  · rintro ⟨caps, n, h1, h2, h3, h4⟩
+    exact ⟨caps, n, h1, h2, (base10_mem_capsAbs_iff c o ccs caps h1).2 h3, h4⟩
+
+/-! ### near misses (non-vacuity and documentation; all by evaluation) -/
+
+/-- `urn:ietf:params:netconf:base:1.0#` — an empty fragment is a fragment -/
+theorem base10_empty_fragment_is_unknown :
+    classifyCapability "urn:ietf:params:netconf:base:1.0#"
+      { scheme := "urn", authority := none, path := "ietf:params:netconf:base:1.0", query := none, fragment := some "" }
+      = .unknown "urn:ietf:params:netconf:base:1.0#" := by decide
+
+/-- `urn:ietf:params:netconf:base:1.0?` — an empty query is a query -/
+theorem base10_empty_query_is_unknown :
+    classifyCapability "urn:ietf:params:netconf:base:1.0?"
+      { scheme := "urn", authority := none, path := "ietf:params:netconf:base:1.0", query := some "", fragment := none,
+        queryUnesc := some "" }
+      = .unknown "urn:ietf:params:netconf:base:1.0?" := by decide
+
+/-- `…base:1.00`, `…base:1.`, `URN:…`, `urn://host/…`: longer / shorter path, another scheme spelling,
+an authority — and the exact one for comparison -/
+theorem base10_near_misses_are_unknown :
+    classifyCapability "x" { scheme := "urn", authority := none, path := "ietf:params:netconf:base:1.00", query := none, fragment := none } = .unknown "x"
+    ∧ classifyCapability "x" { scheme := "urn", authority := none, path := "ietf:params:netconf:base:1.", query := none, fragment := none } = .unknown "x"
+    ∧ classifyCapability "x" { scheme := "URN", authority := none, path := "ietf:params:netconf:base:1.0", query := none, fragment := none } = .unknown "x"
+    ∧ classifyCapability "x" { scheme := "urn", authority := some "", path := "ietf:params:netconf:base:1.0", query := none, fragment := none } = .unknown "x"
+    ∧ classifyCapability "x" { scheme := "urn", authority := none, path := "ietf:params:netconf:base:1.0", query := none, fragment := none } = .base10 := by
+  decide
+
+/-- `?scheme=file&fallback-scheme=ftp`: only the parameter named `scheme` counts -/
+theorem url_other_parameter_names_ignored :
+    urlSchemes "scheme=file&fallback-scheme=ftp" = ["file"]
+    ∧ urlSchemes "xscheme=http&fallback-scheme=ftp&scheme" = []
+    ∧ urlSchemes "fallback-scheme=ftp&scheme=file,sftp&Scheme=http" = ["file", "sftp"]
+    ∧ classifyCapability "x"
+        { scheme := "urn", authority := none, path := "ietf:params:netconf:capability:url:1.0",
+          query := some "scheme=file&amp;fallback-scheme=ftp", fragment := none,
+          queryUnesc := some "scheme=file&fallback-scheme=ftp" } = .url ["file"] := by
+  decide
+
+/-- an oracle that decomposes the near misses the way iri-string does -/
+def nearMissOracle : UriOracle := fun s =>
+  if s == "urn:ietf:params:netconf:base:1.0#" then
+    some { scheme := "urn", authority := none, path := "ietf:params:netconf:base:1.0", query := none, fragment := some "" }
+  else if s == "urn:ietf:params:netconf:base:1.0?" then
+    some { scheme := "urn", authority := none, path := "ietf:params:netconf:base:1.0", query := some "", fragment := none,
+           queryUnesc := some "" }
+  else if s == "urn:ietf:params:netconf:base:1.00" then
+    some { scheme := "urn", authority := none, path := "ietf:params:netconf:base:1.00", query := none, fragment := none }
+  else exOracle s
+
+/-- a hello whose only "base" capabilities are the near misses is read (they are `Unknown`
+capabilities) but no session is established; with the exact text next to them it is -/
+theorem near_miss_hello_not_established :
+    (match establish .fixed false nearMissOracle (exHello ["urn:ietf:params:netconf:base:1.0#",
+        "urn:ietf:params:netconf:base:1.0?", "urn:ietf:params:netconf:base:1.00"]) with
+      | .error e => some e | .ok _ => none) = some Err.other   -- Error::VersionNegotiation
+    ∧ (establish .fixed false nearMissOracle (exHello ["urn:ietf:params:netconf:base:1.0#",
+        "urn:ietf:params:netconf:base:1.0"])).toOption
+      = some { sid := 4, version := .v10,
+               serverCaps := [.unknown "urn:ietf:params:netconf:base:1.0#", .base10] } := by
+  decide
+
+end Xml
